@@ -192,6 +192,7 @@ def cases(tier, seed):
             yield {"fam": famname, "left": ["lv1", i]}
         yield {"fam": famname, "left": ["special", "eqhash"]}
         yield {"fam": famname, "left": ["special", "methods"]}
+        yield {"fam": famname, "left": ["special", "simplify-multiplicity"]}
         if tier != "quick":
             # depth 3: (depth-1 o depth-1) o atom/scalar
             for i in range(0, len(lv1), 1):
@@ -414,6 +415,45 @@ def run_case(desc, seed):
             counters["accepted_nodes"] += 1
             if not close(ref, fam.dense(a), TOL, floor=1e-12):
                 add("C15:split_elementary", f"[{fam.name}] {a} -> {el}, {f}")
+    elif idx == "simplify-multiplicity":
+        # sums in which the same term occurs up to five times, in every position: every word of length <= 5 over a small alphabet of
+        # terms, two of which are the same term after identity removal
+        A = fam.atoms()
+        X, Y, Z = A[0], A[1], A[2]
+        other = [d for b in fam.basis for d in b.dofs if d not in X.dofs][0]
+        Xp = X * Op("I", other) * 0.5            # the same term as X once identities are squeezed out
+        alpha = [X, Y, Z, Xp]
+        for L in range(1, 6):
+            for word in itertools.product(range(4), repeat=L):
+                if max(word.count(k) for k in range(4)) + (word.count(0) + word.count(3) - max(word.count(0), word.count(3))) < 3 and L > 3:
+                    continue         # long words without a triple add nothing new
+                terms = [alpha[k] for k in word]
+                before = sum(fam.dense(t) for t in terms)
+                for atol in (0, 0.6):
+                    try:
+                        s1 = OpSum(list(terms)).simplify(atol=atol)
+                    except Exception as e:
+                        if not library_refusal(e):
+                            add(f"C15:exception:{type(e).__name__}:simplify:repeated-terms", f"[{fam.name}] OpSum of word {word} over (X, Y, Z, X*I/2).simplify(atol={atol}) raised {e!r}")
+                        else:
+                            add(f"C15:simplify:refuses-repeated-terms:{type(e).__name__}", f"[{fam.name}] OpSum of word {word} over (X, Y, Z, X*I/2).simplify(atol={atol}) raised {e!r}")
+                        continue
+                    counters["accepted_nodes"] += 1
+                    groups = {}
+                    for t in terms:
+                        key = tuple((sy, repr(df)) for sy, df in zip(t.split_symbol, t.dofs) if sy != "I")
+                        g = groups.setdefault(key, [0.0, t])
+                        g[0] = g[0] + t.factor
+                    exp = np.zeros((fam.D, fam.D), dtype=complex)
+                    for key, (f, t) in groups.items():
+                        if abs(f) > atol:
+                            exp = exp + fam.dense(t) / t.factor * f
+                    if not agree(fam.dense(s1), exp, before):
+                        add("C15:simplify:repeated-terms", f"[{fam.name}] simplify(atol={atol}) of the word {word} over (X, Y, Z, X*I/2) gives {s1}: differs from 'merge equal terms, then drop' by {np.linalg.norm(fam.dense(s1) - exp):.3e}")
+                    keys = [tuple((sy, repr(df)) for sy, df in zip(t.split_symbol, t.dofs) if sy != "I") for t in s1]
+                    if len(keys) != len(set(keys)):
+                        add("C15:simplify:not-merged", f"[{fam.name}] simplify of the word {word} left equal terms: {s1}")
+        nonzero[0] = True
     elif idx == "eqhash":
         ops = []
         for d, v in lv0 + lv1:
